@@ -453,6 +453,21 @@ def obj_at(value, path):
     return cur
 
 
+def abstract_type_conditions(doc, schema) -> Set[str]:
+    from graphql import FragmentDefinitionNode, InlineFragmentNode, Visitor, is_abstract_type, visit
+    out: Set[str] = set()
+
+    class V(Visitor):
+        def enter(self, node, *_):
+            if isinstance(node, (InlineFragmentNode, FragmentDefinitionNode)) and node.type_condition is not None:
+                t = schema.type_map.get(node.type_condition.name.value)
+                if t is not None and is_abstract_type(t):
+                    out.add(node.type_condition.name.value)
+
+    visit(doc, V())
+    return out
+
+
 def obj_at_raw(data, path):
     cur = data
     for p in path:
@@ -508,15 +523,27 @@ def c05_checks(case, replay_case, feats, value, data, world, rpaths, schema_ref,
                 own |= {n.strip("[]!") for n in ((static_types or {}).get(oracles.key_path(fp)) or ())}
                 if bad_name in own:
                     mech = "typename-literal-includes-abstract-type-name"
+                elif authored_doc is not None and bad_name in abstract_type_conditions(authored_doc, schema_ref):
+                    # a class generated for a type condition on an abstract type (`... on <Interface>`, written inline or arriving through an unpacked
+                    # named fragment on a sub-interface / union) carries Literal["<that abstract type's name>"]: the same listed mechanism
+                    mech = "typename-literal-includes-abstract-type-name"
             if holder is not None:
                 names = oracles.wire_map(type(holder)).get(path[-1], [])  # "__typename" or its alias
-                if len(names) == 1 and type(holder).model_fields[names[0]].annotation is str:
+                if len(names) == 1 and type(holder).model_fields[names[0]].annotation in (str, typing.Optional[str]):  # Optional when the fragment holds it under a condition
                     owner = next((c for c in type(holder).__mro__ if names[0] in getattr(c, "__annotations__", {})), None)
                     frag_names = {"".join(p[:1].upper() + p[1:] for p in n.split("_")) for n in fragment_names}
                     if owner is not None and owner.__name__ in frag_names and owner.__module__.endswith("." + cfg.get("fragments_module_name", "fragments")):
                         mech = "typename-str-at-fragment-root"
-        violations.append(Violation("C05", "rejects-" + kind, "%s: payload corrupted by %s at %r was accepted by %s\ncorrupted: %s" % (
-            op_name, kind, path, model_cls.__name__, json.dumps(corrupted)[:600]), feats, replay_case, mech=mech))
+        extra = ""
+        if kind == "typename-not-possible":
+            try:
+                acc = obj_at(model_cls.model_validate(corrupted), path[:-1])
+                extra = " (__typename %r; the object was validated by class %s, bases %s)" % (
+                    obj_at_raw(corrupted, path), type(acc).__name__, [b.__name__ for b in type(acc).__mro__[1:4]])
+            except BaseException:  # noqa: BLE001
+                pass
+        violations.append(Violation("C05", "rejects-" + kind, "%s: payload corrupted by %s at %r was accepted by %s%s\ncorrupted: %s" % (
+            op_name, kind, path, model_cls.__name__, extra, json.dumps(corrupted)[:600]), feats, replay_case, mech=mech))
     # annotation image, for every (class, field) reached in this response
     enums_mod = sys.modules.get("%s.%s" % (pkg.__name__, cfg.get("enums_module_name", "enums")))
     seen = set()
@@ -550,8 +577,10 @@ def c05_checks(case, replay_case, feats, value, data, world, rpaths, schema_ref,
                     except BaseException as e:  # noqa: BLE001
                         ann = type(obj).model_fields[fname].annotation
                     count("c05.annotations_checked")
-                    miss = oracles.match_annotation(ann, t, conditional, enums_mod, {}, "%s.%s" % (type(obj).__name__, fname))
-                    if miss:
+                    miss = oracles.match_annotation(ann, t, conditional, enums_mod, {}, "%s.%s" % (type(obj).__name__, fname), schema_ref)
+                    if miss and miss.startswith("typename-literal-foreign-type"):
+                        violations.append(Violation("C05", "typename-literal-foreign-type", "%s: %s" % (op_name, miss), feats, replay_case, mech="c05:typename-literal-foreign-type"))
+                    elif miss:
                         violations.append(Violation("C05", "annotation-image", "%s: %s (GraphQL type %s)" % (op_name, miss, t), feats, replay_case, mech="c05:annotation-image"))
             visit(getattr(obj, fname), v, p)
 
